@@ -110,6 +110,9 @@ def run(ctx, model_ok=True):
     for fs in ['dos3x', 'prodos', 'pascal', 'cpm', 'fat']:
         for _ in range(1 if quick else 8):
             lines.append(f"malform m{k} unpack {rng.randrange(1 << 30)} {fs}"); k += 1
+    # IMD track records with the optional cylinder and head maps (a2kit writes none or one of them): whole and truncated everywhere
+    for fs, lab in [('cpm2', 'imd:8in'), ('fat', 'imd:5.25in-ibm-dsdd9'), ('cpm2', 'imd:5.25in-kay4')][:(2 if quick else 3)]:
+        lines.append(f"malform m{k} imdmaps {rng.randrange(1 << 30)} {fs} {lab}"); k += 1
     for proc in range(4):
         for mx in range(4):
             lines.append(f"dasmsweep s{k} {proc} {mx} {[0, 768, 65280][(proc + mx) % 3]}"); k += 1
